@@ -157,6 +157,9 @@ func CaseLabels(c *Case, v *VResult) map[string]bool {
 			}
 			var walkP func(p Param, d int)
 			walkP = func(p Param, d int) {
+				if p.Decl != "" {
+					l["has-declared-ignore-unexported-object"] = true
+				}
 				if p.isObj() {
 					l["has-in-object"] = true
 					if d >= 1 {
@@ -197,6 +200,9 @@ func CaseLabels(c *Case, v *VResult) map[string]bool {
 				}
 				if r.Flatten {
 					l["has-flatten"] = true
+				}
+				if r.Zero {
+					l["has-zero-valued-result"] = true
 				}
 				if r.Group != "" {
 					l["has-group-result"] = true
@@ -260,6 +266,11 @@ func ModelLabels(c *Case, v *VResult, l map[string]bool) {
 	for k, on := range v.Labels {
 		if on {
 			l[k] = true
+		}
+	}
+	for _, op := range c.Ops {
+		if op.F != nil && (op.F.EK != 0 || op.F.PK != 0) && len(op.F.Faults) > 0 {
+			l["has-unusual-fault-value"] = true
 		}
 	}
 	for _, d := range v.DupPred {
